@@ -38,7 +38,8 @@ _UND_PARSE = ('parsing: Repr::from_str_native is proved against an ASCII string 
               'formerly excluded by precondition are repaired (proposed_fixes IO2: an inner `+` is rejected; IO3: '
               '`scale - fraction digits` is computed with checked_sub) and the preconditions are gone. Still outside the '
               'contract: isize overflow of the exponent inside Repr::new (normalisation adds the number of stripped zeros: '
-              'DBig::from_str("10e9223372036854775807") panics in debug builds; the Repr::new stub does not model it). '
+              'DBig::from_str("10e9223372036854775807") panics in debug builds): excluded by the resource precondition `parse_room` '
+              '(the exponent of the leading digit of the written value fits isize; Repr::new stub: `exp_room`). '
               'FromStr::from_str (one-line forwarder to FBig::from_str_native, a trait-impl method) is not a separate unit. '
               'A bounded Kani group on the real parser was tried and abandoned: 3 symbolic characters in base 2 exceed '
               '600 s / 5 GB of CBMC.')
